@@ -8,8 +8,8 @@ mv tests/mutant_demo.rs /tmp/mut/$id.demo.rs
 echo "== suite with change"; cargo test --offline --no-fail-fast "$@" 2>&1 | grep -E "^test result|FAILED|panicked" | sort | uniq -c
 mv /tmp/mut/$id.demo.rs tests/mutant_demo.rs
 echo "== demo with change (expect failure)"; cargo test --offline --test mutant_demo "$@" 2>&1 | grep -E "^test |test result" | head
-git stash push -q -- src
+git diff -- src > /tmp/mut/$id.current.diff; git apply -R /tmp/mut/$id.current.diff
 echo "== demo without change (expect ok)"; cargo test --offline --test mutant_demo "$@" 2>&1 | grep -E "^test |test result" | head
-git stash pop -q
+git apply /tmp/mut/$id.current.diff
 git diff --stat -- src | tail -1
 rm -rf /tmp/mut/$id/target
